@@ -379,6 +379,18 @@ Definition m_keys (s : st) (v : view) : st * out :=
   | Ok xs => (s, Ok (map (fun x => mkelem 0 (e_key x) 0) xs))
   end.
 
+(* values(): raw_meta -> the items; meta -> item.value.   items(): (item.key, that) *)
+Definition m_values (raw : bool) (s : st) (v : view) : st * out :=
+  match fetch KNode (items s) (v_idx v) with
+  | Err e => (s, Err e)
+  | Ok xs => (s, Ok (map (fun x => if raw then x else value_of x) xs))
+  end.
+Definition m_items (raw : bool) (s : st) (v : view) : st * out :=
+  match fetch KNode (items s) (v_idx v) with
+  | Err e => (s, Err e)
+  | Ok xs => (s, Ok (map (fun x => if raw then x else mkelem 0 (e_key x) (e_val x)) xs))
+  end.
+
 (* ===== operation language (shared with harness/c10.py) ======================================= *)
 Inductive op :=
 | ORegister (tags : list Z) (k : vkind)
@@ -391,7 +403,7 @@ Inductive op :=
 | VRemove (k : nat) (x : elem) | VDiscard (k : nat) (x : elem)
 | MGet (k : nat) (raw : bool) (key : Z) | MContains (k : nat) (key : Z) | MDel (k : nat) (key : Z)
 | MSet (k : nat) (raw : bool) (key : Z) (x : elem) | MPop (k : nat) (raw : bool) (key : Z) (dflt : bool)
-| MKeys (k : nat).
+| MKeys (k : nat) | MValues (k : nat) (raw : bool) | MItems (k : nat) (raw : bool).
 
 Definition with_view (s : st) (k : nat) (f : view -> st * out) : st * out :=
   match nth_error (views s) k with
@@ -429,6 +441,8 @@ Definition step (s : st) (o : op) : st * out :=
   | MSet k raw key x => with_view s k (fun v => m_setitem raw s v key x)
   | MPop k raw key d => with_view s k (fun v => m_pop raw s v key d)
   | MKeys k => with_view s k (m_keys s)
+  | MValues k raw => with_view s k (m_values raw s)
+  | MItems k raw => with_view s k (m_items raw s)
   end.
 
 (* a history: the state after every operation (exceptions do not stop a history) *)
